@@ -11,7 +11,9 @@ pub enum Act {
     SpawnQueueTask,         // tokio::spawn of the queue-mode follow-up task (item `queue_task`)
 }
 #[derive(PartialEq, Eq, Structural, Clone, Copy)]
-pub enum Ctl { Start, Signal(Signal), Restart, RestartWithSignal(Signal, Duration), RunSetup, ToWait }
+pub enum Ctl { Start, Signal(Signal), Restart, RestartWithSignal(Signal, Duration), RunSetup, ToWait,
+    // not used by the handler today; present so that a change to them is decided instead of falling outside the subset
+    Stop, StopWithSignal(Signal, Duration), TryRestart, TryRestartWithSignal(Signal, Duration), Delete }
 pub struct AEnv {
     pub log: Ghost<Seq<Act>>,
     pub queued: Ghost<bool>,        // the shared `queued` AtomicBool
@@ -45,6 +47,18 @@ impl Job {
         ensures sent(old(env), final(env), Ctl::RestartWithSignal(s, d)), t.c@ == Ctl::RestartWithSignal(s, d) { unimplemented!() }
     #[verifier::external_body]
     pub fn run(&self, f: VxSetup, env: &mut AEnv) -> (t: TicketS) ensures sent(old(env), final(env), Ctl::RunSetup), t.c@ == Ctl::RunSetup { unimplemented!() }
+    #[verifier::external_body]
+    pub fn stop(&self, env: &mut AEnv) -> (t: TicketS) ensures sent(old(env), final(env), Ctl::Stop), t.c@ == Ctl::Stop { unimplemented!() }
+    #[verifier::external_body]
+    pub fn stop_with_signal(&self, s: Signal, d: Duration, env: &mut AEnv) -> (t: TicketS)
+        ensures sent(old(env), final(env), Ctl::StopWithSignal(s, d)), t.c@ == Ctl::StopWithSignal(s, d) { unimplemented!() }
+    #[verifier::external_body]
+    pub fn try_restart(&self, env: &mut AEnv) -> (t: TicketS) ensures sent(old(env), final(env), Ctl::TryRestart), t.c@ == Ctl::TryRestart { unimplemented!() }
+    #[verifier::external_body]
+    pub fn try_restart_with_signal(&self, s: Signal, d: Duration, env: &mut AEnv) -> (t: TicketS)
+        ensures sent(old(env), final(env), Ctl::TryRestartWithSignal(s, d)), t.c@ == Ctl::TryRestartWithSignal(s, d) { unimplemented!() }
+    #[verifier::external_body]
+    pub fn delete(&self, env: &mut AEnv) -> (t: TicketS) ensures sent(old(env), final(env), Ctl::Delete), t.c@ == Ctl::Delete { unimplemented!() }
     #[verifier::external_body]
     pub fn to_wait(&self, env: &mut AEnv) -> (t: TicketS) ensures sent(old(env), final(env), Ctl::ToWait), t.c@ == Ctl::ToWait { unimplemented!() }
 }
